@@ -20,7 +20,7 @@ import re
 import shutil
 import sys
 
-from vf import build, engines
+from vf import build, engines, simhelp
 from vf.common import Run, seed, tier, use_repo, chash
 from vf.sandbox import pmap
 
@@ -93,7 +93,7 @@ def degenerate_case(case):
     if tmax != "default":
         kw["t_max"] = tmax
     script = st.RDScript(**kw)
-    e = engines.get(kind_)
+    e = simhelp.kept_engine(kind_)
     e.setup(script)
     if r.random() < 0.5:
         # the caller goes on using ITS script object for something else: the running simulation must not notice
